@@ -268,7 +268,7 @@ func locate(n *gnode, par *gnode, idx int, trail string, out *[]located) {
 }
 
 // reserialise: changes that preserve canonical meaning
-func preserve(r *core.Rng, root *gnode) *gnode {
+func preserve(r *core.Rng, root *gnode, lite bool) *gnode {
 	t := cloneTree(root)
 	var all []located
 	locate(t, nil, 0, "", &all)
@@ -281,6 +281,9 @@ func preserve(r *core.Rng, root *gnode) *gnode {
 		for i := len(n.attrs) - 1; i > 0; i-- { // attribute order
 			j := r.Intn(i + 1)
 			n.attrs[i], n.attrs[j] = n.attrs[j], n.attrs[i]
+		}
+		if lite { // attribute order and surface style only
+			continue
 		}
 		if r.Chance(12) { // unused namespace declaration
 			fresh++
@@ -309,7 +312,7 @@ func preserve(r *core.Rng, root *gnode) *gnode {
 		}
 	}
 	// drop existing comments sometimes
-	if r.Chance(50) {
+	if !lite && r.Chance(50) {
 		for _, l := range all {
 			if l.n.kind == 0 {
 				var ch []*gnode
@@ -468,6 +471,7 @@ type sigCase struct {
 	Key       string    `json:"key"`
 	Bits      int       `json:"bits"`
 	Hash      string    `json:"hash"`
+	Cert      string    `json:"cert"` // hex DER of the signing certificate
 	Err       string    `json:"err,omitempty"`
 	Signed    string    `json:"signed"` // hex of the signed document
 	VerifyOK  bool      `json:"verify_ok"`
@@ -595,7 +599,7 @@ func runSig(c *core.Ctx) error {
 		for _, k := range keys {
 			h := hashes[(round+id)%len(hashes)]
 			// ---------------- ClickOnce manifest
-			sc := &sigCase{ID: id, Kind: "manifest", Key: k.name, Bits: k.bits, Hash: h.name}
+			sc := &sigCase{ID: id, Kind: "manifest", Key: k.name, Bits: k.bits, Hash: h.name, Cert: hex.EncodeToString(k.cert.Leaf.Raw)}
 			id++
 			withCR := round == 1 && k.bits == 0 // one manifest per run whose signed content holds a carriage return (&#13;)
 			man := genManifest(r, id, withCR)
@@ -671,7 +675,7 @@ func runSig(c *core.Ctx) error {
 			c.Emit(sc)
 
 			// ---------------- enveloping signature over an Object (VSIX style: REC c14n URI, standard hash names)
-			se := &sigCase{ID: id, Kind: "enveloping", Key: k.name, Bits: k.bits, Hash: h.name}
+			se := &sigCase{ID: id, Kind: "enveloping", Key: k.name, Bits: k.bits, Hash: h.name, Cert: hex.EncodeToString(k.cert.Leaf.Raw)}
 			id++
 			cfg := &gcfg{wild: false, maxDepth: 3, maxKids: 3, monotone: true}
 			body := genElem(r, scope{"": xmldsig.NsXMLDsig}, 1, cfg)
@@ -740,7 +744,7 @@ func runSig(c *core.Ctx) error {
 			c.Emit(se)
 
 			// ---------------- the real VSIX package signature (signers/vsix makeSignature through the verif hook)
-			sv := &sigCase{ID: id, Kind: "vsix", Key: k.name, Bits: k.bits, Hash: h.name}
+			sv := &sigCase{ID: id, Kind: "vsix", Key: k.name, Bits: k.bits, Hash: h.name, Cert: hex.EncodeToString(k.cert.Leaf.Raw)}
 			id++
 			digests := map[string][]byte{}
 			var refs [][2]string
@@ -853,11 +857,15 @@ func toEtree(n *gnode) etree.Token {
 
 func variants(r *core.Rng, root *gnode, nvar int, covered func(string) bool, vfy func([]byte) error) []variant {
 	var out []variant
-	for i := 0; i < nvar; i++ {
-		st := &style{r: r}
-		t := preserve(r, root)
+	for i := 0; i < nvar+nvar/2; i++ {
+		lite := i >= nvar // attribute order and surface style only: also fit for the third-party validator
+		st := &style{r: r, noCDATA: lite}
+		t := preserve(r, root, lite)
 		doc := st.document(t)
 		v := variant{Kind: "preserve", Doc: hx(doc), Covers: true}
+		if lite {
+			v.Kind = "preserve-lite"
+		}
 		if err := vfy([]byte(doc)); err != nil {
 			v.Err = err.Error()
 		} else {
